@@ -4,7 +4,7 @@
 (*          (vkind = "host" | "url": what a returned text is - the host, or a URL built from it) *)
 (*          r : [kind : "bool" | "value" | "exc", b, v, exc, code]]                          *)
 (*         one call of host_is_trusted / sansio get_host / wsgi get_host / Request.host      *)
-(*  dcfg : [t, op, evalex, pin_on, pin, trusted]       a fresh DebuggedApplication (pin "A") *)
+(*  dcfg : [t, op, evalex, pin_on, pin, plog, trusted]      a fresh DebuggedApplication (pin "A") *)
 (*  set  : [t, i, op, evalex, pin_on, pin, trusted]    its configuration after an assignment *)
 (*         to the public attributes pin / evalex / trusted_hosts of the live application     *)
 (*  req  : [t, i, op, cmd, secret, host, hpresent, tab, cookie, frame, pin,                  *)
@@ -62,7 +62,7 @@ HV(ln, c) == IF ~ln.hpresent THEN "U"
 
 Q(ln, c) == [cmd |-> ln.cmd, secret |-> ln.secret, hv |-> HV(ln, c), cookie |-> ln.cookie,
              frame |-> ln.frame, pin |-> ln.pin]
-C(c) == [evalex |-> c.evalex, pin_on |-> c.pin_on, pin |-> c.pin]
+C(c) == [evalex |-> c.evalex, pin_on |-> c.pin_on, pin |-> c.pin, plog |-> c.plog]
 
 WellFormedReq(ln) == /\ ln.cmd \in Cmds /\ ln.secret \in Secrets /\ ln.cookie \in Cookies
                      /\ ln.frame \in Frames /\ ln.pin \in Pins
@@ -89,8 +89,10 @@ Next ==
             IF ~WellFormedReq(ln) THEN UNCHANGED <<cfg, fails, mcnt>> /\ Reject(ln, "MalformedTraceLine")
             ELSE LET q == Q(ln, cfg)  c == C(cfg)
                      m == ImplStep("fixed", c, mcnt, q, ln.rtrust) IN
-                 /\ Reject(ln, IF ln.crash # "" THEN "NoOtherFailure" ELSE Safety(c, fails, q, ln.o))
-                 /\ LET u == IF ln.crash # "" THEN "ok" ELSE Usability(c, fails, q, ln.o) IN
+                 \* "rather than any other failure" is said of an unacceptable Host; a crash on a request from
+                 \* an acceptable Host is no host-trust matter (drift)
+                 /\ Reject(ln, IF ln.crash # "" THEN (IF q.hv = "U" THEN "NoOtherFailure" ELSE "ok") ELSE Safety(c, fails, q, ln.o))
+                 /\ LET u == IF ln.crash # "" THEN (IF q.hv = "U" THEN "ok" ELSE "CrashOnAcceptableHost") ELSE Usability(c, fails, q, ln.o) IN
                     IF u = "ok" THEN TRUE
                     ELSE PrintT(ToJson([drift |-> 1, t |-> ln.t, i |-> ln.i, pin_on |-> cfg.pin_on, what |-> u]))
                  /\ fails' = ContractNext(c, fails, q, ln.o)
